@@ -1332,6 +1332,108 @@ def _match(r, c, params, locals_, sigma, lam):
     return r == c
 
 
+def namedtuples_to_tuples(asts, ref):
+    """A namedtuple type that is new relative to the reference and only ever constructed (N(..) with every field given) is
+    read as the plain tuple it extends: N(a, b) -> (a, b); a local that is only ever used as <local>.<field of N> and is bound
+    by a for-loop or a plain assignment is unpacked where it is bound:  for v in X: f(v.a, v.b)  ->  for (v__a, v__b) in X: f(v__a, v__b).
+    (A namedtuple IS a tuple with the fields in this order; the rewrite only changes how elements are named.)"""
+    done = []
+    if not ref:
+        return done
+    for rel, mod in asts.items():
+        runits = ref.get(rel)
+        if runits is None:
+            continue
+        ref_mod_names = {str(n) for k, n in runits.get("mod", ["", []])[1] if k == "name"}
+        types = {}
+        for st in mod.body:
+            if isinstance(st, ast.Assign) and len(st.targets) == 1 and isinstance(st.targets[0], ast.Name) and isinstance(st.value, ast.Call) \
+                    and (st.value.func.id if isinstance(st.value.func, ast.Name) else getattr(st.value.func, "attr", None)) == "namedtuple" \
+                    and len(st.value.args) == 2 and st.targets[0].id not in ref_mod_names:
+                f = st.value.args[1]
+                if isinstance(f, (ast.List, ast.Tuple)) and all(isinstance(e, ast.Constant) and isinstance(e.value, str) for e in f.elts):
+                    types[st.targets[0].id] = [e.value for e in f.elts]
+                elif isinstance(f, ast.Constant) and isinstance(f.value, str):
+                    types[st.targets[0].id] = f.value.replace(",", " ").split()
+        if not types:
+            continue
+        # every mention of the type is a complete construction
+        usable = {}
+        for N, fields in types.items():
+            okN = True
+            for n in ast.walk(mod):
+                if isinstance(n, ast.Name) and n.id == N and isinstance(n.ctx, ast.Load):
+                    par = getattr(n, "_parent", None)
+                    if not (isinstance(par, ast.Call) and par.func is n and not any(isinstance(a, ast.Starred) for a in par.args)
+                            and all(k.arg in fields for k in par.keywords)
+                            and len(par.args) + len(par.keywords) == len(fields)
+                            and not (set(fields[:len(par.args)]) & {k.arg for k in par.keywords})):
+                        okN = False
+            if okN:
+                usable[N] = fields
+        if not usable:
+            continue
+        count = [0]
+
+        class Ctor(ast.NodeTransformer):
+            def visit_Call(self, node):
+                self.generic_visit(node)
+                if isinstance(node.func, ast.Name) and node.func.id in usable:
+                    fields = usable[node.func.id]
+                    vals = dict(zip(fields, node.args))
+                    vals.update({k.arg: k.value for k in node.keywords})
+                    count[0] += 1
+                    return ast.copy_location(ast.Tuple(elts=[vals[f] for f in fields], ctx=ast.Load()), node)
+                return node
+        Ctor().visit(mod)
+        # locals used only as records of one of these types
+        for fn in [x for x in ast.walk(mod) if isinstance(x, (ast.FunctionDef, ast.AsyncFunctionDef))]:
+            names = {}
+            for n in ast.walk(fn):
+                if isinstance(n, ast.Name):
+                    names.setdefault(n.id, []).append(n)
+            for v, occ in names.items():
+                loads = [n for n in occ if isinstance(n.ctx, ast.Load)]
+                stores = [n for n in occ if isinstance(n.ctx, ast.Store)]
+                if not loads or len(stores) != 1:
+                    continue
+                if not all(isinstance(getattr(n, "_parent", None), ast.Attribute) and n._parent.value is n and isinstance(n._parent.ctx, ast.Load)
+                           for n in loads):
+                    continue
+                used = {n._parent.attr for n in loads}
+                cands = [N for N, fields in usable.items() if used <= set(fields)]
+                if len(cands) != 1:
+                    continue
+                fields = usable[cands[0]]
+                st = stores[0]
+                par = getattr(st, "_parent", None)
+                if not ((isinstance(par, (ast.For, ast.AsyncFor)) and par.target is st)
+                        or (isinstance(par, ast.Assign) and len(par.targets) == 1 and par.targets[0] is st)):
+                    continue
+                tgt = ast.copy_location(ast.Tuple(elts=[ast.Name(id="%s__%s" % (v, f), ctx=ast.Store()) for f in fields], ctx=ast.Store()), st)
+                if isinstance(par, ast.Assign):
+                    par.targets[0] = tgt
+                else:
+                    par.target = tgt
+                for n in loads:
+                    a = n._parent
+                    ap = getattr(a, "_parent", None)
+                    new = ast.copy_location(ast.Name(id="%s__%s" % (v, a.attr), ctx=ast.Load()), a)
+                    for field, val in ast.iter_fields(ap):
+                        if val is a:
+                            setattr(ap, field, new)
+                        elif isinstance(val, list):
+                            for q, x in enumerate(val):
+                                if x is a:
+                                    val[q] = new
+                count[0] += 1
+                _relink(mod, rel)
+        if count[0]:
+            _relink(mod, rel)
+            done.append({"module": rel, "new_namedtuples_read_as_tuples": sorted(usable), "rewrites": count[0]})
+    return done
+
+
 def _body_dump(body):
     body = body[1:] if body and _is_doc(body[0]) and len(body) > 1 else body
     return [ast.dump(st) for st in body]
@@ -1475,6 +1577,23 @@ def outline_vanished_helpers(asts, ref):
             star = rfn.args.vararg.arg if rfn.args.vararg else None
             body = rfn.body[1:] if rfn.body and _is_doc(rfn.body[0]) and len(rfn.body) > 1 else rfn.body
             rets = _returns(rfn)
+            # `if C: return` + rest, pasted into a caller, reads `if not C: rest`
+            if len(rets) == 1 and len(body) >= 2 and isinstance(body[0], ast.If) and not body[0].orelse and len(body[0].body) == 1 \
+                    and body[0].body[0] is rets[0] and rets[0].value is None:
+                t = body[0].test
+                flip = {ast.NotIn: ast.In, ast.In: ast.NotIn, ast.Is: ast.IsNot, ast.IsNot: ast.Is, ast.Eq: ast.NotEq, ast.NotEq: ast.Eq,
+                        ast.Lt: ast.GtE, ast.GtE: ast.Lt, ast.Gt: ast.LtE, ast.LtE: ast.Gt}
+                if isinstance(t, ast.UnaryOp) and isinstance(t.op, ast.Not):
+                    neg = t.operand
+                elif isinstance(t, ast.Compare) and len(t.ops) == 1 and type(t.ops[0]) in flip:
+                    neg = ast.Compare(left=t.left, ops=[flip[type(t.ops[0])]()], comparators=t.comparators)
+                else:
+                    neg = ast.UnaryOp(op=ast.Not(), operand=t)
+                guard = ast.If(test=neg, body=body[1:], orelse=[])
+                ast.copy_location(guard, body[0])
+                ast.fix_missing_locations(guard)
+                body = [guard]
+                rets = []
             value_helper = False
             if rets:
                 if len(rets) == 1 and rets[0] is body[-1] and rets[0].value is not None:
